@@ -26,6 +26,10 @@ CHECKS = {
          "A long-lived real Cluster (real allocate.go, both shipped allocators, real pubsubmon with peerset filter, model consensus holding the current pin) allocates through Cluster.Pin and the BlockAllocate RPC for generated peersets, per-peer metric states (absent/valid/expired/invalid/non-numeric, ties forced), current allocations, priority lists and factor pairs; each result is judged by a predicate derived from the inputs only (membership, health, min/max, priority-then-strategy order with free ties, refusal leaves the pinset unchanged).",
          "Metric expiry is +-1h so no metric changes class during a call. The exclusion list is reached only through the failure/removal path, covered by C10 with the same predicate. Filling up to max and the identity of tie winners are not demanded.",
          "DESIGN.md §4 C03"),
+ "C04": ("exploration", "runtime reference-model monitor: random Pin/PinPath/PinUpdate/Unpin/UnpinPath histories on a real Cluster, pinset listed before/after every call and compared with the transition the property prescribes",
+         "Histories over a 4-CID universe (options set, changed, added and removed between successive pins; sharded sets with a genuine CBOR cluster-DAG block; cluster default factors and follower mode varied; entries pre-committed by other peers) run on a real Cluster with real allocators and monitor and a model consensus over a real dsstate. After every call the whole pinset is compared: success replaces exactly that entry with the requested options and a C03-valid allocation, identical re-pin keeps allocations, every listed refusal leaves the pinset byte-identical, unpin removes exactly the entry (and the cluster-DAG and shards of a meta entry), update copies the source and leaves it intact.",
+         "Consensus is a model (real dsstate behind it): commit failures of a real consensus are out of scope here (C01/C02). Expiries are +-1h from now.",
+         "DESIGN.md §4 C04"),
 }
 
 ALL = ["C%02d" % i for i in range(1, 19)]
